@@ -2624,10 +2624,15 @@ def props_of_root(body):
     return out
 
 
+# schemas for methods that the pinned tree does not define (overrides a maintainer may add: count on the lazy set
+# iterators, ...): applied when such a root exists, not required to exist
+OPTIONAL = set()
+
+
 def anchors(pid):
     """root keys whose schema serves property pid"""
     ks = {k for k, (props, _) in HANDLERS.items() if pid in props} | {k for k, v in ITER_HOOKS.items() if pid in v[0]}
-    return sorted(ks, key=lambda k: tuple(str(x) for x in k))
+    return sorted(ks - OPTIONAL, key=lambda k: tuple(str(x) for x in k))
 
 
 IT = 'Iterator'
@@ -2639,6 +2644,11 @@ for _path, _how in ((ITER, 'pair'), (ITERMUT, 'pair'), (KEYS, 'key'), (VALUES, '
     HANDLERS[(_path, ESI, 'len')] = ({'C09'}, h_cursor_count('len'))
 for _path in (ITER, ITERMUT):
     HANDLERS[(_path, IT, 'count')] = ({'C09'}, h_cursor_count('count'))
+for _path in (KEYS, VALUES, VALUESMUT, SETITER):
+    HANDLERS[(_path, IT, 'count')] = ({'C09'}, h_cursor_count('count'))
+    OPTIONAL.add((_path, IT, 'count'))
+for _path in (DIFF, DIFFREF, INTER):
+    OPTIONAL.add((_path, 'Iterator', 'count'))
 for _path in (ITER, KEYS, VALUES, SETITER):
     HANDLERS[(_path, 'Clone', 'clone')] = ({'C09'}, h_iter_clone)
 for _path, _how in ((DRAIN, 'owned-pair'), (SETDRAIN, 'owned-key')):
